@@ -8,15 +8,15 @@ from vlib import ToolError, Result, log
 PLAN = {
     "C01": {"models": ["pipeline"], "drivers": ["small", "adversarial", "char-classes", "front:hist", "fallbacks"], "thorough_drivers": ["icase-sweep"]},
     "C02": {"models": ["pipeline", "lang", "tlaps-lang"], "drivers": ["small-default", "near-miss", "char-classes"]},
-    "C03": {"drivers": ["classes", "fallbacks"], "models": ["class"]},
-    "C04": {"drivers": ["icase-words", "icase-sweep"], "models": ["fold"]},
-    "C05": {"drivers": ["small-rep", "repeats", "fallbacks"], "models": ["rep", "repconv"]},
+    "C03": {"drivers": ["classes", "fallbacks", "front:hist"], "models": ["class"]},
+    "C04": {"drivers": ["icase-words", "icase-sweep", "front:hist"], "models": ["fold"]},
+    "C05": {"drivers": ["small-rep", "repeats", "fallbacks", "front:hist"], "models": ["rep", "repconv"]},
     "C06": {"drivers": ["presentation", "char-classes", "front:hist", "fallbacks"], "models": ["lang", "verbose", "print"]},
     "C07": {"drivers": ["lattice", "char-classes", "front:hist", "front:large"], "models": ["builder-rust", "apalache-builder"]},
-    "C08": {"models": ["pipeline"], "drivers": ["small-anchors", "anchors", "fallbacks"]},
+    "C08": {"models": ["pipeline"], "drivers": ["small-anchors", "anchors", "fallbacks", "front:hist"]},
     "C09": {"drivers": ["class-sweep"], "models": ["class"]},
     "C10": {"drivers": ["orders", "front:hist"], "models": ["builder-rust"]},
-    "C11": {"drivers": ["escape-words", "front:escsweep", "fallbacks"], "models": ["front-laws"]},
+    "C11": {"drivers": ["escape-words", "front:escsweep", "fallbacks", "front:hist"], "models": ["front-laws"]},
     "C12": {"drivers": ["front:cli"], "models": ["front-laws"]},
     "C13": {"drivers": ["thresholds", "front:hist"], "models": ["rep", "repconv"]},
     "C14": {"drivers": ["front:py"], "models": ["builder-py", "front-laws"]},
@@ -315,7 +315,7 @@ def model_rep(res, known, tier, seed):
     shutil.rmtree(d, ignore_errors=True)
 
 
-FRONT_INV = ["LinesLaw", "LinesNoEol", "LinesEmpty", "PyLaw", "PyNoBraceLeft", "PyKeepsOtherText", "EscLaw", "EscRejects",
+FRONT_INV = ["LinesLaw", "LinesNoEol", "LinesEmpty", "PyLaw", "PyNoBraceLeft", "PyKeepsOtherText", "PyEscapedBackslash", "EscLaw", "EscRejects",
              "SgrLaw", "SgrKeepsEscapedBracket", "CliLaw"]
 
 
